@@ -1249,6 +1249,11 @@ class H2Stream:
                 headers, hdr_validation_flags
             )
 
+        # The steps above are lazy generators. Run them to completion before
+        # handing the headers to the encoder: encoding changes the header
+        # compression context, so a validation error must surface first.
+        headers = list(headers)
+
         encoded_headers = encoder.encode(headers)
 
         # Slice into blocks of max_outbound_frame_size. Be careful with this:
